@@ -168,7 +168,7 @@ func funcDir(ctx *Context, this *VMValue, params []*VMValue) *VMValue {
 	typeId := params[0].TypeId
 	var arr []*VMValue
 	if v, ok := builtinProto[typeId]; ok {
-		v.Range(func(key string, value *VMValue) bool {
+		v.RangeSorted(func(key string, value *VMValue) bool {
 			arr = append(arr, NewStrVal(key))
 			return true
 		})
